@@ -581,7 +581,11 @@ func (H) Gen(prop string, seed uint64, tier string) *hx.Case {
 					hc = n
 				}
 			}
-			for j := 1; j <= int(d)+1+r.Intn(2); j++ {
+			tail := r.Intn(2)
+			if prop == "C07" && r.Chance(0.5) {
+				tail = r.Range(2, 4) // several stored descendants behind the block that fails: their flags are rewritten one by one
+			}
+			for j := 1; j <= int(d)+1+tail; j++ {
 				o := ledger.BlockOpts{NTx: r.Range(1, 4)}
 				if j == bad {
 					o.Viol = []string{"bad-sig", "spent-input", "overspend", "immature", "double-in-block", "missing-input"}[r.Intn(6)]
